@@ -70,6 +70,9 @@ class CodeGenModel:
                 I.null_derefs.append(pos(n))
                 raise Thrown('null pointer dereference (code generation for a moved-from sub-expression)')
             rn = [k for k, v in self.regs.items() if v == reg.lo][0]
+            if getattr(self, 'expand_consts', False) and isinstance(e, Obj) and e.fields.get('constValue') is not None \
+                    and e.cls in ('xcmp::NumberExpr', 'xcmp::BooleanExpr'):
+                return NotImplemented      # let the real code load the constant (the peephole pass looks at constant loads)
             self.subexprs.append((e, rn))
             fo = self.frame.fields['offset']
             if isinstance(e, Obj) and (e.cls in ('xcmp::VarRefExpr', 'xcmp::NumberExpr', 'xcmp::BooleanExpr', 'xcmp::StringExpr')
@@ -201,9 +204,10 @@ def operand_kinds(M):
             ('csub', lambda n: X.binop('MINUS', X.num(3 if n == 'a' else 1), X.var(n)))]
 
 
-def gen_binary(idx, op, lkind, rkind, reg='A'):
+def gen_binary(idx, op, lkind, rkind, reg='A', expand_consts=False):
     """ExprCodeGen::visitPost on (L op R) after OptimiseExpr, operands of the given kinds; returns (model, node, thrown)."""
     M = CodeGenModel(idx, reg)
+    M.expand_consts = expand_consts
     for n in ('a', 'b', "a'", "b'"):
         M.symbol(n, 'VAR', 'f')
     for n in ('arr_a', 'arr_b'):
@@ -483,10 +487,39 @@ class TemplateFault(Exception):
     pass
 
 
-def exec_template(M, env, cond_script=None, max_steps=200):
+def peephole(M):
+    """The template after the directive-level peephole pass (the real OptimiseDirectives constructor, interpreted): sub-expression and
+    statement placeholders are shown to it as zero-size padding directives, which no pattern matches.  Returns [(token, directive)]
+    or None when the pass leaves the template unchanged."""
+    from . import c08
+    items = M.instrs()
+    back = {}
+    seq = []
+    for tk, d in items:
+        if d.cls in ('EXPR', 'STMT'):
+            ph = M.I.construct('hexasm::Padding', [const(64, False, 0)])
+            back[id(ph)] = (tk, d)
+            seq.append(ph)
+        else:
+            seq.append(d)
+    res, ub = c08.optimise(M.idx, M.X, seq)
+    if ub:
+        raise TemplateFault('the peephole pass reads outside the directive vector: %s' % ub[:2])
+    out = []
+    for d in res:
+        if id(d) in back:
+            out.append(back[id(d)])
+        else:
+            out.append((M.ratok.get(d.fields['token'].lo, '?') if 'token' in d.fields else d.cls, d))
+    if [id(d) for _, d in out] == [id(d) for _, d in items]:
+        return None
+    return out
+
+
+def exec_template(M, env, cond_script=None, max_steps=200, seq=None):
     """Execute a generated template concretely: EXPR[e->R] sets R to the X meaning of e under env (induction hypothesis: code for
     a sub-expression leaves its value in the requested register); returns (areg, list of executed STMT placeholders)."""
-    seq = M.instrs()
+    seq = seq if seq is not None else M.instrs()
     labels = {}
     for i, (tk, d) in enumerate(seq):
         if tk == 'IDENTIFIER' or d.cls == 'hexasm::Label':
@@ -600,6 +633,32 @@ def rule_templates(rep, idx):
                     bad = 'for %s the template leaves %r in areg, (%s) means %d' % (env, got, M0.X.show(orig), want)
                     break
             rep.add('R11', key, bad is None, where, bad or '%d assignments agree; template %s' % (n, [t for t, _ in M.instrs()]))
+            # the same template after the directive-level peephole pass (constant leaves expanded into their real loads)
+            try:
+                M, node, chain, thrown = gen_binary(idx, op, lk, rk, expand_consts=True)
+                if thrown:
+                    raise TemplateFault('code generation fails: %s' % thrown)
+                opt_seq = peephole(M)
+            except (TemplateFault, Thrown, NeedSplit, AnalysisBroken) as e:
+                rep.undecided('R11', key + ':after-peephole', 'the peephole pass could not be applied to the template: %s' % e, where)
+                continue
+            if opt_seq is None:
+                continue
+            bad = None
+            for vals in it.product(*[(DB if (logical and lk == 'var' and rk == 'var') else D) for _ in vs]):
+                env = dict(zip(vs, vals))
+                want = M0.X.meaning(orig, env)
+                try:
+                    got, _ = exec_template(M, env, seq=opt_seq)
+                except TemplateFault as e:
+                    bad = 'for %s: %s' % (env, e)
+                    break
+                for u in reversed(chain):
+                    got = xmodel.x_unop('NOT', got)
+                if got != want:
+                    bad = 'for %s the optimised template %s leaves %r in areg, (%s) means %d' % (env, [t for t, _ in opt_seq], got, M0.X.show(orig), want)
+                    break
+            rep.add('R11', key + ':after-peephole', bad is None, where + ' / xcmp::OptimiseDirectives', bad or 'optimised template %s agrees' % [t for t, _ in opt_seq])
     # unary not
     M = CodeGenModel(idx, 'A')
     M.symbol('a', 'VAR', 'f')
